@@ -130,6 +130,59 @@ class EndswithModify(_Wild):
     clsname, front, back = "SigmaEndswithModifier", True, False
 
 
+class _WildFieldRef(Contract):
+    """contains / startswith / endswith on a field reference: the flag(s) of THIS modifier are set, a flag an earlier modifier of the
+    chain set stays, the referenced field is the same (fieldref|startswith|endswith means "contains")"""
+    props = ("C03",)
+    cases = tuple((sw, ew) for sw in (False, True) for ew in (False, True))
+    sets = ()
+
+    def args(self, I, case):
+        me, di = mk_mod(I, self.clsname)
+        fld = I.fresh("field", "str")
+        val = SObj(I.E.index.lookup("sigma.types:SigmaFieldReference"), {"field": fld, "starts_with": case[0], "ends_with": case[1]}, lazy=True)
+        return {"self": me, "args": [val], "val": val, "fld": fld, "case": case}
+
+    def post(self, I, inp, r):
+        c = I.ctx
+        ok = isinstance(r, SObj) and getattr(r.cls, "name", None) == "SigmaFieldReference"
+        c.require(ok, "returns a field reference")
+        if not ok:
+            return
+        sw, ew = inp["case"]
+        f = I.force(r.fields["field"])
+        c.require(isinstance(f, Sym) and z3.eq(f.t, inp["fld"].t), "the referenced field is unchanged")
+        c.require(I.force(r.fields["starts_with"]) is (sw or "starts_with" in self.sets), f"starts_with == {sw or 'starts_with' in self.sets} (set by this modifier or kept from an earlier one)")
+        c.require(I.force(r.fields["ends_with"]) is (ew or "ends_with" in self.sets), f"ends_with == {ew or 'ends_with' in self.sets} (set by this modifier or kept from an earlier one)")
+
+    def frame_ok(self, I, inp, obj, name):
+        return (obj is inp["val"] or getattr(obj, "born", 0)) and name in ("starts_with", "ends_with")
+
+    def candidates(self):
+        return iter(())
+
+
+@register
+class ContainsModifyFieldRef(_WildFieldRef):
+    id = "C03.SigmaContainsModifier.modify[fieldref]"
+    target = f"{MODS}:SigmaContainsModifier.modify"
+    clsname, sets = "SigmaContainsModifier", ("starts_with", "ends_with")
+
+
+@register
+class StartswithModifyFieldRef(_WildFieldRef):
+    id = "C03.SigmaStartswithModifier.modify[fieldref]"
+    target = f"{MODS}:SigmaStartswithModifier.modify"
+    clsname, sets = "SigmaStartswithModifier", ("starts_with",)
+
+
+@register
+class EndswithModifyFieldRef(_WildFieldRef):
+    id = "C03.SigmaEndswithModifier.modify[fieldref]"
+    target = f"{MODS}:SigmaEndswithModifier.modify"
+    clsname, sets = "SigmaEndswithModifier", ("ends_with",)
+
+
 # ----------------------------------------------------------------------------------------------- list modifiers
 class _ListMod(Contract):
     props = ("C03",)
